@@ -100,7 +100,9 @@ def handle (_ : Unit) (toks : List Tok) : Unit × String :=
     match toks with
     | [Tok.str "groups", ats, es] => do
         let m ← molOf ats es
-        pure (encGroups (findPtmGroups m))
+        let gs := findPtmGroups m
+        let ok := gs.all fun g => g.2.all fun x => !m.extra.contains x
+        pure (encGroups gs ++ " anchors-not-extra=" ++ encBool ok)
     | [Tok.str "cover", np, tc, frs] => do
         let tc ← ints? tc
         pure (encRes (coverGraph (← ints? np) tc.length tc (← (← frs.list?).mapM fragOf)))
